@@ -166,8 +166,15 @@ func checkC10(tier string) int {
 		quiet := 0
 		var lastSet string
 		cfg.FilterPlan = func(c *gen.Ctx, specs []hist.TxSpec) []hist.TxSpec {
+			// (the mempool check judges by the previous block's height: the stake that comes at the very end of the
+			// waiting time reaches a block only through a proposer that does not ask it)
+			for k := range specs {
+				if strings.Contains(specs[k].Note, "(directed)") {
+					specs[k].Force = true
+				}
+			}
 			// quiet tail: blocks 9..15 of every 16 carry no stake-changing traffic
-			if c.H%16 >= 9 {
+			if c.H%16 >= 9 || (c.H >= 35 && c.H <= 40) {
 				var keep []hist.TxSpec
 				for _, s := range specs {
 					if !stakeKinds[s.Kind] || strings.Contains(s.Note, "(directed)") {
@@ -178,6 +185,8 @@ func checkC10(tier string) int {
 			}
 			return specs
 		}
+		// (the blocks after the directed whole-stake unstake of block 34 are quiet in every respect)
+		cfg.QuietAt = func(h int64) bool { return h >= 35 && h <= 41 }
 		cfg.OnBlock = func(run *hist.Runner, blk *hist.Block) bool {
 			r.Count("blocks", 1)
 			if el, top := mon.Contention(blk.Prev); int64(el) > top {
